@@ -235,7 +235,24 @@ func c09Entries() []c09Entry {
 var c09TextAlphabet = []byte("0123456789abcdefABCDEFxX+-/=.:TZ \t\"{}[],eE")
 
 func c09TextInput(r *core.RNG, ln int) []byte {
-	switch r.Intn(6) {
+	switch r.Intn(8) {
+	case 6, 7:
+		// timestamps as peers write them, including the forms only some parsers take: the inserted leap
+		// second 23:59:60, seconds / minutes / hours / days one past their range, fractions of 1..12
+		// digits, lower-case designators, a space for the T, offsets with and without colon
+		pick := func(xs ...string) string { return xs[r.Intn(len(xs))] }
+		var sb strings.Builder
+		sb.WriteString(pick("2016-12-31", "2015-06-30", "2012-06-30", "1980-01-06", "2020-02-29", "2021-02-29", "2019-13-01", "2019-00-10", "2019-04-31", "9999-12-31", "0000-01-01", "2016-12-32"))
+		sb.WriteString(pick("T", "T", "T", "t", " "))
+		sb.WriteString(pick("23:59:60", "23:59:59", "00:00:00", "23:59:61", "24:00:00", "12:60:00", "01:59:60", "23:59:6", "7:05:09"))
+		if r.Chance(1, 3) {
+			sb.WriteByte('.')
+			for k := 1 + r.Intn(12); k > 0; k-- {
+				sb.WriteByte(byte('0' + r.Intn(10)))
+			}
+		}
+		sb.WriteString(pick("Z", "Z", "z", "+00:00", "-00:00", "+02:00", "+14:00", "-12:00", "+0200", "+02", "", "+24:00", "+02:60"))
+		return []byte(sb.String())
 	case 0:
 		return r.Bytes(ln)
 	case 1:
